@@ -17,17 +17,17 @@ const tmPrefix = "internal/executor/contracts.(*TransactionManager)."
 // protocolEdges: the transition relation stated by the property, as
 // (event, source, destination) over protobuf status names.
 var protocolEdges = map[string]bool{
-	"begin|init|BEGIN":                       true,
-	"begin_failure|init|BEGIN_FAILURE":       true,
-	"begin_failure|BEGIN|BEGIN_FAILURE":      true, // one-to-many: a sibling failed at begin
-	"timeout|BEGIN|BEGIN_ROLLBACK":           true,
-	"success|BEGIN|SUCCESS":                  true,
-	"failure|BEGIN|FAILURE":                  true,
-	"failure|BEGIN_FAILURE|FAILURE":          true,
-	"rollback|BEGIN_ROLLBACK|ROLLBACK":       true,
-	"failure|BEGIN_ROLLBACK|ROLLBACK":        true,
-	"dst_failure|BEGIN|FAILURE":              true,
-	"dst_rollback|BEGIN|ROLLBACK":            true,
+	"begin|init|BEGIN":                  true,
+	"begin_failure|init|BEGIN_FAILURE":  true,
+	"begin_failure|BEGIN|BEGIN_FAILURE": true, // one-to-many: a sibling failed at begin
+	"timeout|BEGIN|BEGIN_ROLLBACK":      true,
+	"success|BEGIN|SUCCESS":             true,
+	"failure|BEGIN|FAILURE":             true,
+	"failure|BEGIN_FAILURE|FAILURE":     true,
+	"rollback|BEGIN_ROLLBACK|ROLLBACK":  true,
+	"failure|BEGIN_ROLLBACK|ROLLBACK":   true,
+	"dst_failure|BEGIN|FAILURE":         true,
+	"dst_rollback|BEGIN|ROLLBACK":       true,
 }
 
 var finalStates = map[string]bool{"SUCCESS": true, "FAILURE": true, "ROLLBACK": true}
